@@ -9,6 +9,7 @@ use std::marker::PhantomData;
 use std::os::fd::IntoRawFd;
 use std::os::unix::io::{AsRawFd, RawFd};
 
+use virtio_queue::QueueT;
 use vmm_sys_util::epoll::{ControlOperation, Epoll, EpollEvent, EventSet};
 use vmm_sys_util::event::EventNotifier;
 
@@ -203,6 +204,13 @@ where
 
         if (device_event as usize) < self.vrings.len() {
             let vring = &self.vrings[device_event as usize];
+
+            // The event may be stale: the ring can have been stopped (GET_VRING_BASE) after
+            // epoll reported its kick. A stopped ring must not be processed.
+            if !vring.get_ref().get_queue().ready() {
+                return Ok(false);
+            }
+
             let enabled = vring
                 .read_kick()
                 .map_err(VringEpollError::HandleEventReadKick)?;
